@@ -650,6 +650,10 @@ htp_status_t htp_connp_RES_BODY_DETERMINE(htp_connp_t *connp) {
 
             htp_table_clear(connp->out_tx->response_headers);
 
+            // Finalize sending raw header data of the interim response.
+            htp_status_t rc = htp_connp_res_receiver_finalize_clear(connp);
+            if (rc != HTP_OK) return rc;
+
             // Expecting to see another response line next.
             connp->out_state = htp_connp_RES_LINE;
             connp->out_tx->response_progress = HTP_RESPONSE_LINE;
